@@ -3,10 +3,13 @@
 package harness
 
 import (
+	"context"
 	"fmt"
+	"sync"
 	"testing"
 	"time"
 
+	"github.com/blevesearch/bleve/v2/index/scorch/mergeplan"
 	"pgregory.net/rapid"
 )
 
@@ -42,4 +45,233 @@ func TestC01Scheduled(t *testing.T) {
 			"introductions": fmt.Sprintf("segment=%d persist=%d merge=%d", counts["intro.segment.afterSwap"], counts["intro.persist.afterSwap"], counts["intro.merge.afterSwap"])}
 		ev.Case(nt && met > 0, canon, smp, classes...)
 	})
+}
+
+// windowGate blocks the first goroutine that reaches a hook point while armed.
+type windowGate struct {
+	mu      sync.Mutex
+	point   string
+	armed   bool
+	reached chan struct{}
+	release chan struct{}
+}
+
+func (w *windowGate) arm(point string) {
+	w.mu.Lock()
+	w.point, w.armed = point, true
+	w.reached, w.release = make(chan struct{}), make(chan struct{})
+	w.mu.Unlock()
+}
+
+func (w *windowGate) onPoint(p string) {
+	w.mu.Lock()
+	if !w.armed || p != w.point {
+		w.mu.Unlock()
+		return
+	}
+	w.armed = false
+	reached, release := w.reached, w.release
+	w.mu.Unlock()
+	close(reached)
+	<-release
+}
+
+func (w *windowGate) open() {
+	w.mu.Lock()
+	w.armed = false
+	if w.release != nil {
+		select {
+		case <-w.release:
+		default:
+			close(w.release)
+		}
+	}
+	w.mu.Unlock()
+}
+
+// TestC01MergeWindow: writes that land inside a merge.  A walk of 1-3 windows on scorch disk
+// (unsafe batches): for an in-memory-merge window the persister is parked at the end of a
+// round, 2-4 batches pile up in memory, one persister round starts and is stopped after the
+// merged segments are built (persist.memMerge.afterFiles); for a file-merge window 2-5
+// persisted segments are force-merged with a plan of several tasks and the merger is stopped
+// before it hands its result to the introducer (merge.beforeIntroduce).  Inside the window 1-2
+// generated batches update and delete documents of the segments being merged; the state is
+// compared with the model after every batch, after the merge is introduced, and after a reopen.
+func TestC01MergeWindow(t *testing.T) {
+	ev := Ev("C01")
+	checkPropN(t, "C01", 40, func(t *rapid.T) {
+		cfg := Config{Engine: EngScorchDisk, UnsafeBatch: true, MaxSegPerTier: 100, FloorSegSize: 1, SegPerMerge: 10}
+		cfg.Workers = rapid.SampledFrom([]int{1, 2, 4}).Draw(t, "workers")
+		cfg.MaxMemMerge = rapid.SampledFrom([]int{1, 1, 4096}).Draw(t, "maxmem")
+		cfg.KeepSnapshots = rapid.SampledFrom([]int{1, 3}).Draw(t, "keep")
+		dir := TempDir(t)
+		g := newPersisterGate("persist.afterNotifyWaiters")
+		w := &windowGate{}
+		InstallHook(HookPlan{Mode: "count"})
+		SetOnPoint(func(p string) { w.onPoint(p); g.onPoint(p) })
+		idx, err := cfg.Create(dir, WorldMapping())
+		if err != nil {
+			t.Fatalf("create: %v", err)
+		}
+		closed := false
+		defer func() {
+			w.open()
+			g.release()
+			SetOnPoint(nil)
+			ClearHook()
+			if !closed {
+				idx.Close()
+			}
+		}()
+		model := NewState()
+		var hist []string
+		check := func(when string) {
+			o, err := Observe(idx, DocIDs, InternalKeys)
+			if err != nil {
+				t.Fatalf("%s: %v (config %s, history %v)", when, err, cfg, hist)
+			}
+			if d := o.DiffModel(model, DocIDs, InternalKeys); d != "" {
+				t.Fatalf("%s: %s (config %s, history %v)", when, d, cfg, hist)
+			}
+		}
+		batch := func(label string, min int) {
+			ops := genDataBatch(t, label, 5, CorpusOpts{})
+			for len(ops) < min {
+				ops = append(ops, genDataBatch(t, label+"+", 3, CorpusOpts{})...)
+			}
+			if err := ApplyBatch(idx, ops); err != nil {
+				t.Fatalf("batch: %v", err)
+			}
+			model.Apply(ops)
+			hist = append(hist, fmt.Sprintf("%s%v", label, opsBrief(ops)))
+			check("after batch " + label)
+		}
+		settle := func() {
+			g.release()
+			if err := WaitPersisted(idx, 30*time.Second); err != nil {
+				t.Fatalf("harness: %v", err)
+			}
+		}
+		insideWindows, multi := 0, 0
+		nw := rapid.IntRange(1, 3).Draw(t, "windows")
+		for wi := 0; wi < nw; wi++ {
+			if rapid.Bool().Draw(t, "memwindow") {
+				// park the persister at the end of a round
+				settle()
+				g.hold()
+				batch(fmt.Sprintf("w%d.warm", wi), 1)
+				for dl, n := time.Now().Add(2*time.Second), g.parkedCount(); g.parkedCount() == n && time.Now().Before(dl); {
+					time.Sleep(200 * time.Microsecond)
+				}
+				k := rapid.IntRange(2, 4).Draw(t, "memsegs")
+				for i := 0; i < k; i++ {
+					batch(fmt.Sprintf("w%d.mem%d", wi, i), 2)
+				}
+				w.arm("persist.memMerge.afterFiles")
+				before := HookCounts()["intro.merge.afterSwap"]
+				hist = append(hist, "persister-round-starts")
+				go g.round(5 * time.Second)
+				select {
+				case <-w.reached:
+					insideWindows++
+					hist = append(hist, "in-memory-merge-built")
+					for i, n := 0, rapid.IntRange(1, 2).Draw(t, "inside"); i < n; i++ {
+						batch(fmt.Sprintf("w%d.inside%d", wi, i), 2)
+					}
+					w.open()
+					for dl := time.Now().Add(5 * time.Second); HookCounts()["intro.merge.afterSwap"] == before && time.Now().Before(dl); {
+						time.Sleep(200 * time.Microsecond)
+					}
+					hist = append(hist, "in-memory-merge-introduced")
+					check("after the in-memory merge was introduced")
+				case <-time.After(500 * time.Millisecond):
+					w.open() // this configuration did not merge in memory
+					hist = append(hist, "no-in-memory-merge")
+				}
+				settle()
+				check("after settling")
+			} else {
+				k := rapid.IntRange(2, 5).Draw(t, "filesegs")
+				for i := 0; i < k; i++ {
+					batch(fmt.Sprintf("w%d.file%d", wi, i), 2)
+					settle()
+				}
+				w.arm("merge.beforeIntroduce")
+				done := make(chan error, 1)
+				perTask := rapid.SampledFrom([]int{2, 2, 3, 10}).Draw(t, "perTask")
+				go func() {
+					ctx, cancel := context.WithTimeout(context.Background(), 30*time.Second)
+					defer cancel()
+					done <- ScorchOf(idx).ForceMerge(ctx, &mergeplan.MergePlanOptions{MaxSegmentsPerTier: 1, MaxSegmentSize: 1 << 30, MaxSegmentFileSize: 1 << 40,
+						TierGrowth: 1.0, SegmentsPerMergeTask: perTask, FloorSegmentSize: 1 << 30, FloorSegmentFileSize: 1 << 40, ReclaimDeletesWeight: 2.0})
+				}()
+				hist = append(hist, fmt.Sprintf("forced-merge-starts(%d segments per task)", perTask))
+				select {
+				case <-w.reached:
+					insideWindows++
+					if perTask < k+1 {
+						multi++
+					}
+					hist = append(hist, "merged-files-written")
+					for i, n := 0, rapid.IntRange(1, 2).Draw(t, "inside"); i < n; i++ {
+						batch(fmt.Sprintf("w%d.inside%d", wi, i), 2)
+					}
+					w.open()
+				case err := <-done:
+					done <- err
+					hist = append(hist, "nothing-to-merge")
+				case <-time.After(10 * time.Second):
+					w.open()
+				}
+				w.open()
+				select {
+				case err := <-done:
+					if err != nil {
+						t.Fatalf("ForceMerge: %v (config %s, history %v)", err, cfg, hist)
+					}
+				case <-time.After(40 * time.Second):
+					t.Fatalf("ForceMerge did not return (config %s, history %v)", cfg, hist)
+				}
+				hist = append(hist, "forced-merge-introduced")
+				check("after the forced merge was introduced")
+				settle()
+				check("after settling")
+			}
+		}
+		settle()
+		if err := idx.Close(); err != nil {
+			t.Fatalf("close: %v", err)
+		}
+		closed = true
+		idx, err = cfg.Reopen(dir)
+		if err != nil {
+			t.Fatalf("reopen: %v (history %v)", err, hist)
+		}
+		closed = false
+		hist = append(hist, "reopen")
+		check("after reopen")
+		cl := []string{"merge-window", "engine:" + cfg.Engine}
+		if multi > 0 {
+			cl = append(cl, "merge-window-multi-task-plan")
+		}
+		if insideWindows > 0 {
+			cl = append(cl, "batch-introduced-inside-a-background-window")
+		}
+		ev.Case(insideWindows > 0, map[string]interface{}{"A": cfg, "hist": hist}, map[string]interface{}{"A": cfg, "history": hist, "writes_inside_merge_windows": insideWindows}, cl...)
+	})
+}
+
+func opsBrief(ops []Op) []string {
+	var out []string
+	for _, o := range ops {
+		switch o.Kind {
+		case OpDelete:
+			out = append(out, "-"+o.ID)
+		case OpIndex:
+			out = append(out, "+"+o.ID)
+		default:
+			out = append(out, "i:"+o.ID)
+		}
+	}
+	return out
 }
